@@ -19,7 +19,9 @@
 struct c16_io C16IO;
 char c16_stream_object[8];
 
-/* append the first k of n source bytes (the first min(n,16) and the last are read: the source object must be n bytes long) */
+/* append the first k of n source bytes (the first min(n,16) and the last are read: the source object must be n bytes long).
+   The log position of COMPLETE writes is kept in its own counter so that it stays concrete on every path; a short write
+   (k < n) may happen once, and nothing may be written after it (the caller must have seen the error). */
 static void c16_append(const void *p, size_t n, size_t k)
 {
   const uint8_t *s = (const uint8_t *) p;
@@ -29,11 +31,15 @@ static void c16_append(const void *p, size_t n, size_t k)
     C16IO.call[c].n = (uint32_t) n; C16IO.call[c].src = p;
     if (n > 0) { C16IO.call[c].first = s[0]; C16IO.call[c].last = s[n - 1]; }
   }
+  if (k == 0 && n > 0) return;                                  /* no progress: nothing reaches the target */
+  M_ASSERT(!C16IO.short_seen, "no_write_after_a_short_write");
   for (i = 0; i < C16_LOG_MAX; i++)
     if (i < n) {
       uint8_t b = s[i];
-      if (i < k && C16IO.len + i < C16_LOG_MAX) C16IO.log[C16IO.len + i] = b;
+      if (i < k && C16IO.len_full + i < C16_LOG_MAX) C16IO.log[C16IO.len_full + i] = b;
     }
+  if (k == n) C16IO.len_full += (uint32_t) n;
+  else C16IO.short_seen = 1;
   C16IO.len += (uint32_t) k;
 }
 
